@@ -87,10 +87,26 @@ def fieldsOk (P' : Prog) (n : String) : Nat → List Shape → Bool
   | _, [] => true
   | i, s :: ss => shapeLe s (fieldShape P' n i) && fieldsOk P' n (i + 1) ss
 
+/-- a field of a value known to be a struct `n` has the shape its declared type promises -/
+def cgetShape (P' : Prog) (c : Ctor) (i : Nat) (s : Shape) : Shape :=
+  match c, s with
+  | .struct n, .clo m => if n == m then fieldShape P' n i else .any
+  | _, _ => .any
+
 /-- a name that is not a local variable denotes the same thing in both programs: a function of
     the source program (its lifted counterpart is checked by `progOk`), or a builtin/extern in both -/
 def globalOk (P P' : Prog) (x : String) : Bool :=
   (P.findFn x).isSome || (P'.findFn x).isNone
+
+/-- the promise carried by the declared return type of a called global function -/
+def callShape (P P' : Prog) (T : List String) (f' : Expr) : Shape :=
+  match f' with
+  | .var g _ =>
+    if T.contains g then .any else
+      match P.findFn g, P'.findFn g with
+      | some _, some fn' => claim P' fn'.ret
+      | _, _ => .any
+  | _ => .any
 
 def primEq : Prim → Prim → Bool
   | .unit, .unit => true
@@ -224,15 +240,7 @@ def simE (P P' : Prog) (Γ : SEnv) (S T : List String) : Expr → Expr → Optio
     | .matchE _ scrut' arms' dflt' =>
       match simE P P' Γ S T scrut scrut' with
       | some _ =>
-        if simArms P P' Γ S T arms arms' then
-          match dflt, dflt' with
-          | none, none => some .any
-          | some d, some d' =>
-            match simE P P' Γ S T d d' with
-            | some _ => some .any
-            | none => none
-          | _, _ => none
-        else none
+        if simArms P P' Γ S T arms arms' && simOpt P P' Γ S T dflt dflt' then some .any else none
       | none => none
     | _ => none
   | .ite c t e, e' =>
@@ -262,10 +270,7 @@ def simE (P P' : Prog) (Γ : SEnv) (S T : List String) : Expr → Expr → Optio
       if decide (c = c') && i == i' then
         match simE P P' Γ S T e e2' with
         | some s =>
-          -- a field of a value known to be a struct `n` has the shape its declared type promises
-          some (match c', s with
-            | .struct n, .clo m => if n == m then fieldShape P' n i else .any
-            | _, _ => .any)
+          some (cgetShape P' c' i s)
         | none => none
       else none
     | _ => none
@@ -295,11 +300,7 @@ def simE (P P' : Prog) (Γ : SEnv) (S T : List String) : Expr → Expr → Optio
         if x == g then
           -- an ordinary call of a variable / global function
           match simE P P' Γ S T f f', simList P P' Γ S T args args' with
-          | some _, some _ =>
-            some (if T.contains g then .any else
-              match P.findFn g, P'.findFn g with
-              | some _, some fn' => claim P' fn'.ret
-              | _, _ => .any)
+          | some _, some _ => some (callShape P P' T f')
           | _, _ => none
         else
           -- `x(args)` rewritten into `inherent#n#n#apply(x, args')`
@@ -314,14 +315,7 @@ def simE (P P' : Prog) (Γ : SEnv) (S T : List String) : Expr → Expr → Optio
           | _ => none
       | _, _, _ =>
         match simE P P' Γ S T f f', simList P P' Γ S T args args' with
-        | some _, some _ =>
-          some (match f' with
-            | .var g _ =>
-              if T.contains g then .any else
-                match P.findFn g, P'.findFn g with
-                | some _, some fn' => claim P' fn'.ret
-                | _, _ => .any
-            | _ => .any)
+        | some _, some _ => some (callShape P P' T f')
         | _, _ => none
     | _ => none
   | .toDyn tr forTy _ e, e' =>
@@ -352,6 +346,7 @@ def simE (P P' : Prog) (Γ : SEnv) (S T : List String) : Expr → Expr → Optio
         | none => none
       else none
     | _ => none
+termination_by structural e _ => e
 def simList (P P' : Prog) (Γ : SEnv) (S T : List String) : List Expr → List Expr → Option (List Shape)
   | [], es' => match es' with | [] => some [] | _ :: _ => none
   | e :: es, es' =>
@@ -361,6 +356,14 @@ def simList (P P' : Prog) (Γ : SEnv) (S T : List String) : List Expr → List E
       | some s, some ss => some (s :: ss)
       | _, _ => none
     | [] => none
+termination_by structural es _ => es
+def simOpt (P P' : Prog) (Γ : SEnv) (S T : List String) : Option Expr → Option Expr → Bool
+  | none, d' => match d' with | none => true | some _ => false
+  | some d, d' =>
+    match d' with
+    | some d' => (simE P P' Γ S T d d').isSome
+    | none => false
+termination_by structural d _ => d
 def simArms (P P' : Prog) (Γ : SEnv) (S T : List String) : List Arm → List Arm → Bool
   | [], as' => match as' with | [] => true | _ :: _ => false
   | .mk lhs body :: rest, as' =>
@@ -368,6 +371,7 @@ def simArms (P P' : Prog) (Γ : SEnv) (S T : List String) : List Arm → List Ar
     | .mk lhs' body' :: rest' =>
       headEq (armHead lhs) (armHead lhs') && (simE P P' Γ S T body body').isSome && simArms P P' Γ S T rest rest'
     | [] => false
+termination_by structural as _ => as
 end
 
 /-- a source function and its lifted counterpart -/
